@@ -22,6 +22,20 @@ pub trait Canon: Sized {
     proof fn ser_injective(a: Self, b: Self, c: Compress, ra: Seq<u8>, rb: Seq<u8>)
         requires a.ser(c) + ra == b.ser(c) + rb
         ensures a.ser(c) == b.ser(c), ra == rb;
+    // the provided convenience methods of ark-serialize, by their definitions (fixed compression / validation mode)
+    fn deserialize_compressed(reader: &mut Source) -> (r: Result<Self, SerializationError>)
+        ensures r is Ok ==> old(reader).bytes@ == r->Ok_0.ser(Compress::Yes) + final(reader).bytes@, r is Ok ==> r->Ok_0.valid()
+    { Self::deserialize_with_mode(reader, Compress::Yes, Validate::Yes) }
+    fn deserialize_compressed_unchecked(reader: &mut Source) -> (r: Result<Self, SerializationError>)
+        ensures r is Ok ==> old(reader).bytes@ == r->Ok_0.ser(Compress::Yes) + final(reader).bytes@
+    { Self::deserialize_with_mode(reader, Compress::Yes, Validate::No) }
+    fn deserialize_uncompressed(reader: &mut Source) -> (r: Result<Self, SerializationError>)
+        ensures r is Ok ==> old(reader).bytes@ == r->Ok_0.ser(Compress::No) + final(reader).bytes@, r is Ok ==> r->Ok_0.valid()
+    { Self::deserialize_with_mode(reader, Compress::No, Validate::Yes) }
+    fn deserialize_uncompressed_unchecked(reader: &mut Source) -> (r: Result<Self, SerializationError>)
+        ensures r is Ok ==> old(reader).bytes@ == r->Ok_0.ser(Compress::No) + final(reader).bytes@
+    { Self::deserialize_with_mode(reader, Compress::No, Validate::No) }
+    // (serialize_compressed / serialize_uncompressed into a byte vector: see trait SerU below)
 }
 #[verifier::external_body] pub struct Term { _x: u8 }   // P::Term of the multivariate polynomial type (opaque)
 impl Canon for G1Affine {
